@@ -53,6 +53,8 @@ impl Minimizer {
     pub(crate) fn minimize(dfa: CompiledDfa) -> CompiledDfa {
         trace!("Minimize DFA ----------------------------");
         trace!("Initial DFA:\n{}", dfa);
+        #[cfg(feature = "verif_hooks")]
+        crate::verif::record_minimizer_input(&dfa);
         // The transitions of the DFA in a convenient data structure.
         let mut transitions = TransitionMap::new();
         dfa.states.iter().enumerate().for_each(|(id, state)| {
@@ -261,6 +263,8 @@ impl Minimizer {
         Self::update_transitions(&mut dfa, &partition, transitions);
 
         trace!("Minimized DFA:\n{}", dfa);
+        #[cfg(feature = "verif_hooks")]
+        crate::verif::record_minimizer_output(&dfa);
 
         dfa
     }
